@@ -25,13 +25,23 @@ Definition res := outcome unit ekind.
 Definition unit_eqb (_ _ : unit) := true.
 Definition res_eqb : res -> res -> bool := outcome_eqb unit_eqb ekind_eqb.
 
+(** Header cases: raw bytes, how the reader delivered them ([frag] = most bytes per [read] call,
+    0 = contiguous slice, 9999 = TCP-like segments), and the parsed (input, nonce, solution) or error. *)
+Definition hres := outcome (bytes * bytes * bytes) unit.
+Definition f3_eqb (a b : bytes * bytes * bytes) : bool :=
+  bytes_eqb (fst (fst a)) (fst (fst b)) && bytes_eqb (snd (fst a)) (snd (fst b)) && bytes_eqb (snd a) (snd b).
+Definition hres_eqb : hres -> hres -> bool := outcome_eqb f3_eqb unit_eqb.
+Definition of_opt (o : option (bytes * bytes * bytes)) : hres := match o with Some f => Ok f | None => Err tt end.
+
 Inductive case :=
-| Eh (n k : N) (input nonce soln : bytes) (t : table) (o : res).
+| Eh (n k : N) (input nonce soln : bytes) (t : table) (o : res)
+| Hd (raw : bytes) (frag : N) (o : hres).
 
 (** Model = implementation (error kind included: the order of checks is part of the model). *)
 Definition run_case (c : case) : bool :=
   match c with
   | Eh n k _ _ soln t o => res_eqb (is_valid (lookup t) n k soln) o
+  | Hd raw _ o => hres_eqb (of_opt (read_header raw)) o
   end.
 
 (** The property on the implementation's outcome, evaluated with Spec.v only:
@@ -45,6 +55,7 @@ Definition prop_case (c : case) : bool :=
       else if negb (nlen soln =? soln_len n k) then res_eqb o (Err EInvalidParams)
       else if validb (lookup t) n k soln then is_ok o
       else is_err o
+  | Hd raw _ o => hres_eqb (of_opt (hdr_fields raw)) o
   end.
 
 Definition known_class (c : case) : N := 0.
@@ -64,4 +75,5 @@ Definition tag_case (c : case) : N :=
             else if negb (nlen soln =? soln_len n k) then 1
             else if 1 <? 512 / n then 2 else 3) +
       100 * (if params_okb n k && (cbits n k mod 8 =? 0) then 1 else 0)
+  | Hd _ _ o => 200 + match o with Ok _ => 0 | Err _ => 1 | Panic => 2 end
   end.
